@@ -280,7 +280,7 @@ def run(ctx):
 
     # ---------------------------------------------------------------- R3
     r = ctx.rule("C13-R3", "TABLE", "arguments and options are enumerated own and inherited; both names of an option "
-                 "are printed when it has both", reference=5)
+                 "are printed when it has both", reference=6)
     ch = ctx.func("CommandHelp._render_help")
     args_calls = [c for c in q.calls(ch) if isinstance(c.func, ast.Attribute) and c.func.attr == "get_arguments"]
     if args_calls and any(not c.args and not c.keywords for c in args_calls):
@@ -295,6 +295,15 @@ def run(ctx):
         r.ok("CommandHelp: options listed own (OPTIONS) and inherited (GLOBAL OPTIONS)")
     else:
         r.fail(ch, ch.node, "options coverage", "the command help does not list both the command's own and the inherited options")
+    # the guards that decide whether a section appears at all must cover the inherited elements too
+    for c in q.calls(ch):
+        if isinstance(c.func, ast.Attribute) and c.func.attr == "has_arguments":
+            par = getattr(c, "_parent", None)
+            if c.args and isinstance(c.args[0], ast.Constant) and c.args[0].value is False:
+                r.fail(ch, c, norm(c), "the ARGUMENTS section is shown only when the command has arguments of its own: a sub-command that only inherits "
+                       "arguments lists none")
+            else:
+                r.ok("CommandHelp: ARGUMENTS section guarded by has_arguments() incl. inherited")
     ah = ctx.func("ApplicationHelp._render_help")
     if any(isinstance(c.func, ast.Attribute) and c.func.attr == "get_options" and not c.args for c in q.calls(ah)) and \
             any(isinstance(c.func, ast.Attribute) and c.func.attr == "_render_commands" for c in q.calls(ah)):
@@ -315,6 +324,32 @@ def run(ctx):
         r.ok("CommandHelp lists the named sub-commands")
     else:
         r.fail(sub_use, sub_use.node, "sub-commands", "the command help does not list the named sub-commands")
+
+    # ---------------------------------------------------------------- R5
+    r = ctx.rule("C13-R5", "TABLE", "text is wrapped with long words broken (else one unbreakable word makes a line "
+                 "wider than the terminal); the help command takes a whole command path", reference=3)
+    for fi in [f for f in p.all_functions() if f.module.name.startswith("clikit.ui")]:
+        for c in q.calls(fi):
+            if isinstance(c.func, ast.Attribute) and isinstance(c.func.value, ast.Name) and c.func.value.id == "textwrap" and c.func.attr in ("wrap", "fill"):
+                kw = {k.arg: k.value for k in c.keywords}
+                off = [k for k in ("break_long_words",) if k in kw and isinstance(kw[k], ast.Constant) and kw[k].value is False]
+                if off and fi.module.name.startswith(("clikit.ui.components.labeled_paragraph", "clikit.ui.components.paragraph")):
+                    r.fail(fi, c, norm(c)[:80], "%s wraps without breaking long words: a token longer than the text column makes the line wider than the terminal" % fi.short)
+                elif fi.module.name.startswith(("clikit.ui.components.labeled_paragraph", "clikit.ui.components.paragraph")):
+                    r.ok("%s: %s" % (fi.short, norm(c)[:50]))
+    dac = ctx.func("DefaultApplicationConfig.configure")
+    found = False
+    for c in q.calls(dac):
+        if isinstance(c.func, ast.Attribute) and c.func.attr == "add_argument" and c.args and isinstance(c.args[0], ast.Constant) and c.args[0].value == "command":
+            found = True
+            flags = norm(c.args[1]) if len(c.args) > 1 else ""
+            if "MULTI_VALUED" in flags and "OPTIONAL" in flags:
+                r.ok("help command: argument 'command' is OPTIONAL | MULTI_VALUED")
+            else:
+                r.fail(dac, c, norm(c)[:80], "the help command's 'command' argument is declared as %s: 'help <a> <b>' (a path of two or more names) is rejected as too many arguments "
+                       "while '<a> <b> --help' works" % (flags or "default"))
+    if not found:
+        r.note("the default configuration declares no 'command' argument for the help command")
 
     # ---------------------------------------------------------------- R4
     r = ctx.rule("C13-R4", "OWNER", "each render builds a fresh layout and does not keep it on the component", reference=1)
